@@ -12,8 +12,14 @@ def plan(tier, seed):
         for norm in norms:
             jobs.append({"id": f"C14:am {e} n={n} norm={norm}", "module": "vf.am", "func": "am_job",
                          "params": dict(env_name=e, n=n, norm=norm, compositions=["XY", "YX"] if tier == "quick" else ["XY", "YX", "XXY", "YXX"])})
+    # multi-start decoding: the decoder regroups its cache / the state between [B*S] and [B, S] (shared embeddings) or
+    # replicates the cache (dynamic embeddings: SDVRP); row = start * B + instance
+    for e in (("tsp", "sdvrp") if tier == "quick" else ENVS):
+        n = 4 if e == "pdp" else 3
+        jobs.append({"id": f"C14:am {e} n={n} multistart S=2", "module": "vf.am", "func": "am_job",
+                     "params": dict(env_name=e, n=n, norm="batch", num_starts=2, compositions=["XY", "YX"] if tier == "quick" else ["XY", "YX", "XXY"])})
     return {"jobs": jobs, "level": "model_checking",
-            "bounds": "AttentionModelPolicy (embed_dim 8, 1 head, 1 encoder layer; batch / instance / layer normalisation in eval mode) on 11 routing environments, n=3-4 nodes, batch compositions [X], [X,Y], [Y,X], [X,X,Y], [Y,X,X] with symbolic instances and symbolic forced action prefixes",
+            "bounds": "AttentionModelPolicy (embed_dim 8, 1 head, 1 encoder layer; batch / instance / layer normalisation in eval mode) on 11 routing environments, n=3-4 nodes, batch compositions [X], [X,Y], [Y,X], [X,X,Y], [Y,X,X] with symbolic instances and symbolic forced action prefixes; single-start and multi-start (S=2 forced starts per instance) decoding",
             "outside": "numerical equality of float kernels; every other policy family (PointerNetwork, MatNet, HAM, MDAM, PolyNet, L2D/HGNN, MoE variants) is NOT executed and NOT claimed: their forward passes are float tensor algebra whose data-flow skeleton was not brought under the opaque-arithmetic stand-in",
             "evidence": {"explanation_of_solver_role": "in opaque-arithmetic mode the logits of X are z3 terms over uninterpreted layer functions; for per-instance code the terms of X in every batch composition are IDENTICAL, so the equalities fold before a query; a leak (e.g. a statistic over the batch) makes them differ and the disequality is satisfiable"}}
 
@@ -27,7 +33,7 @@ def confirm(rp, resp):
         return False, "torch side failed: " + resp["error"]
     if resp.get("violations"):
         return True, "; ".join(resp["violations"][:2])
-    return False, "not reproduced on real torch (3 seeds)"
+    return False, "not reproduced on real torch (6 seeds)"
 
 
 def confirm_witness(rp, resp):
